@@ -57,7 +57,11 @@ DS ==
              IN Step([s EXCEPT
                   !.content[Ev.k] = new,
                   !.open = MarkWrote(Touch(@, Ev.k, new), Ev.actor, new),
-                  !.viol = @ \cup Flag(new.class = "valid", "C05", "a_invalid_or_misfiled_record_stored")
+                  \* the record is stamped with the local time at which it was received (between the start of the
+                  \* call and this write), whatever the sender had put into that field
+                  !.viol = @ \cup Flag(Ev.actor \in DOMAIN s.open => (new.stamp >= s.open[Ev.actor].t0 /\ new.stamp <= Ev.ts),
+                                       "C05", "d_record_not_stamped_with_the_local_receive_time")
+                             \cup Flag(new.class = "valid", "C05", "a_invalid_or_misfiled_record_stored")
                              \cup Flag(cur.class = "valid" => new.rank >= cur.rank, "C05", "b_record_downgraded")])
      ELSE IF Ev.op = "delete" /\ Ev.k >= 0 THEN
         LET cur == s.content[Ev.k] IN
